@@ -175,7 +175,7 @@ func init() {
 		BudgetQuick: 150 * time.Second,
 		BudgetThor:  25 * time.Minute,
 		Kind:        "schedules",
-		Rule: "rule set of 4 rules (strict saliences; one tie with names out of salience order) x every name list of length 0..4 without repetition over {r0,r1,r2,r3,unknown} (206 lists incl. all permutations) x all 11 selected variants x policy x (N,M) with N+M in {len-1,len,len+1} x failing subset of size <=1; plus every list of length 2..4 over {r0,r1,r2,unknown} that repeats a name; plus call histories: the same selected call on one engine and builder before and after an in-place incremental update (salience change, body replacement, a formerly unknown name added), and two different selected calls in a row on one engine (every variant with a failing rule under both policies, then every variant with another name list); " +
+		Rule: "rule set of 4 rules (strict saliences; one tie with names out of salience order) x every name list of length 0..4 without repetition over {r0,r1,r2,r3,unknown} (206 lists incl. all permutations) x all 11 selected variants x policy x (N,M) with N+M in {len-1,len,len+1} x failing subset of size <=1; plus every list of length 2..4 over {r0,r1,r2,unknown} that repeats a name; plus call histories: the same selected call on one engine and builder before and after an in-place incremental update (salience change, body replacement, a formerly unknown name added), and two different selected calls in a row on one engine (every variant with a failing rule under both policies, then every variant with another name list), and the pool's model-dispatching selected call while another thread switches the pool's execution model (every schedule with <=2 (3) deviations); " +
 			"sequential variants: one deterministic execution each; concurrent/mix/inverse/N-M variants: every schedule with <=1 (thorough 2) preemptions; oracle = staged reference plan on exactly the named existing rules (sorted / as-given order, unknown skipped, fail-without-running cases, no unselected rule ever runs)",
 		Assume: []string{"injected observer functions terminate", "for name lists that repeat a name only 'no unselected rule runs / every named existing rule runs / nothing selectable fails' is judged (the statement does not say how often a repeated name runs)"},
 		Run: func(c *hx.Ctx) {
@@ -209,8 +209,18 @@ func init() {
 					hx.Explore("C12", selPairScenario(pc), hx.ExploreCfg{Bound: 0, DefaultOnly: true}, c.Res)
 				}
 			}
+			for i, ec := range selEMConfigs() {
+				if c.Mine(i) {
+					hx.Explore("C12", selEMScenario(ec), hx.ExploreCfg{Bound: envBound(delayBound(c, 2)), Delay: true, Prune: true, Deadline: c.Deadline}, c.Res)
+				}
+			}
 		},
 		Rebuild: func(v *hx.Violation) *hx.Scenario {
+			if v.Scenario == "c12em" {
+				var ec selEMCfg
+				json.Unmarshal(v.Cfg, &ec)
+				return selEMScenario(ec)
+			}
 			if v.Scenario == "c12pair" {
 				var pc selPairCfg
 				json.Unmarshal(v.Cfg, &pc)
@@ -426,6 +436,102 @@ func selPairConfigs() []selPairCfg {
 					}
 				}
 			}
+		}
+	}
+	return out
+}
+
+// ---- the pool's selected call that dispatches on the configured execution model, while the model is switched ----
+
+type selEMCfg struct {
+	Sets  []int    `json:"sets"` // SetExecModel calls made by the other thread, in order
+	Names []string `json:"names"`
+}
+
+type selEMState struct {
+	log  *gx.Log
+	err  error
+	pan  interface{}
+	serr []error
+}
+
+func selEMScenario(cfg selEMCfg) *hx.Scenario {
+	rules := []gx.RuleSpec{{Name: "r0", ID: 1, Salience: 9}, {Name: "r1", ID: 2, Salience: 7}, {Name: "r2", ID: 3, Salience: 5}, {Name: "r3", ID: 4, Salience: 3}}
+	template, err := engine.NewGenginePool(1, 2, engine.SortModel, gx.RulesText(rules), map[string]interface{}{})
+	if err != nil {
+		vsched.InternalError("pool: %v", err)
+	}
+	named := map[int64]bool{}
+	for _, n := range cfg.Names {
+		for _, r := range rules {
+			if r.Name == n {
+				named[r.ID] = true
+			}
+		}
+	}
+	return &hx.Scenario{
+		Name: "c12em",
+		Cfg:  cfg,
+		Opts: vsched.Options{Horizon: 20000},
+		New:  func() interface{} { return &selEMState{log: &gx.Log{}} },
+		Body: func(s interface{}) {
+			st := s.(*selEMState)
+			gp := gx.DeepClone(template).(*engine.GenginePool)
+			vsched.Go(func() {
+				for _, em := range cfg.Sets {
+					st.serr = append(st.serr, gp.SetExecModel(em))
+				}
+			})
+			vsched.Go(func() {
+				data := map[string]interface{}{"ev": st.log.Ev, "ev3": st.log.Ev3, "boom": st.log.Boom}
+				st.err, st.pan = gx.CallGuarded(func() error {
+					e, _ := gp.ExecuteSelectedWithSpecifiedEM(data, cfg.Names)
+					return e
+				})
+				st.log.Ev("ret", 0)
+			})
+			vsched.WaitOthersDone()
+		},
+		Check: func(s interface{}, ex *vsched.Exec) (fs []hx.Finding) {
+			st := s.(*selEMState)
+			raw, _ := json.Marshal(cfg)
+			desc := fmt.Sprintf("\n  cfg=%s\n  log=[%s] err=%v", raw, st.log, st.err)
+			bad := func(sig, msg string) { fs = append(fs, hx.Finding{Sig: "c12:em:" + sig, Msg: msg + desc}) }
+			if ex.Verdict != "" || st.pan != nil {
+				bad("did-not-complete", fmt.Sprintf("verdict %q panic %v", ex.Verdict, st.pan))
+				return
+			}
+			for _, e := range st.serr {
+				if e != nil {
+					bad("set-model-failed", fmt.Sprintf("SetExecModel failed: %v", e))
+				}
+			}
+			if st.err != nil {
+				bad("spurious-error", "the selected call failed although every named rule exists and none fails")
+			}
+			for _, r := range rules {
+				n := st.log.Count("s", r.ID)
+				switch {
+				case named[r.ID] && n != 1:
+					bad("named-rule-count", fmt.Sprintf("named rule %s ran %d time(s), want exactly once whichever execution model the call dispatched on", r.Name, n))
+				case !named[r.ID] && n != 0:
+					bad("unselected-rule-ran", fmt.Sprintf("rule %s was not named but ran %d time(s)", r.Name, n))
+				}
+			}
+			if i := st.log.Index("ret", 0, 0); i >= 0 && i != len(st.log.Evs)-1 {
+				bad("rule-still-running-after-return", "the call returned while a rule it had started was still running")
+			}
+			return
+		},
+		Outcome: func(s interface{}) string { st := s.(*selEMState); return st.log.String() + fmt.Sprint(st.err != nil) },
+	}
+}
+
+func selEMConfigs() []selEMCfg {
+	var out []selEMCfg
+	for _, sets := range [][]int{{engine.ConcurrentModel}, {engine.InverseMixModel}, {engine.MixModel, engine.SortModel}, {engine.InverseMixModel, engine.ConcurrentModel}, {engine.ConcurrentModel, engine.MixModel, engine.InverseMixModel}} {
+		for _, names := range [][]string{{"r1", "r0"}, {"r2", "r0", "r3"}} {
+			out = append(out, selEMCfg{Sets: sets, Names: names})
 		}
 	}
 	return out
